@@ -69,7 +69,9 @@ pub enum Act {
     ClrS,
     /// Send a command to another agent's lane (target index chosen by the script).
     /// mode 0: `send_command` (ad hoc, overwritable); 1: `Commander::send` (overwritable);
-    /// 2: `Commander::send_queued` (never superseded).
+    /// 2: `Commander::send_queued` (never superseded). Modes 3.. use a further `Commander` handle of the
+    /// same target, created from an equivalent spelling of its address (`send_handle`, `host_spelling`):
+    /// 1 + 2h = `send` and 2 + 2h = `send_queued` through handle h (h = 1..3).
     #[form(tag = "send")]
     Send { target: u32, v: u64, mode: u32 },
     /// Record the state of the stores (observed after a restart).
@@ -97,6 +99,39 @@ pub struct Cmd {
 
 pub fn m1_key(k: i32) -> String {
     format!("k{k}")
+}
+
+/// Number of `Commander` handles a target can have (handle 0 uses the address as given).
+pub const SEND_HANDLES: u32 = 4;
+
+/// The `Commander` handle an `Act::Send` mode goes through (None: ad hoc `send_command`).
+pub fn send_handle(mode: u32) -> Option<u32> {
+    if mode == 0 {
+        None
+    } else {
+        Some(((mode - 1) / 2).min(SEND_HANDLES - 1))
+    }
+}
+
+/// `send_queued` (never to be superseded)?
+pub fn send_is_queued(mode: u32) -> bool {
+    mode != 0 && mode % 2 == 0
+}
+
+/// The address text handle `h` of a target is created from, and what distinguishes it from the text of
+/// handle 0. All spellings of one host parse to the same `SchemeHostPort` (`ws`, `warp` and `swimos` are
+/// one scheme, a missing port is the scheme's default, 80), so they denote the same endpoint.
+pub fn host_spelling(host: &Option<String>, h: u32) -> (Option<String>, &'static str) {
+    let Some(text) = host else { return (None, "same-text") };
+    let rest = text.strip_prefix("ws://").unwrap_or(text.as_str());
+    match h {
+        1 => (Some(format!("warp://{rest}")), "scheme-alias"),
+        2 => match text.strip_suffix(":80") {
+            Some(no_port) => (Some(no_port.to_string()), "default-port"),
+            None => (Some(format!("swimos://{rest}")), "scheme-alias"),
+        },
+        _ => (Some(text.clone()), "same-text"),
+    }
 }
 
 /// Map-lane change as seen by the lane's lifecycle callback.
@@ -194,30 +229,34 @@ macro_rules! define_lifecycle {
                     Act::Send { target, v, mode } => {
                         let (host, node, lane) = self.targets.get(target as usize).cloned().unwrap_or_else(|| (None, "/none".to_string(), "none".to_string()));
                         let record = context.effect(move || rec.lock().sent.push((ticket(), target, v, mode)));
-                        if mode == 0 {
-                            record.followed_by(context.send_command(host.as_deref(), node.as_str(), lane.as_str(), v)).boxed()
-                        } else {
-                            let existing = self.commanders.lock().get(&target).copied();
-                            match existing {
-                                Some(c) => {
-                                    if mode == 1 {
-                                        record.followed_by(c.send(v)).boxed()
-                                    } else {
-                                        record.followed_by(c.send_queued(v)).boxed()
+                        match crate::agentdef::send_handle(mode) {
+                            None => record.followed_by(context.send_command(host.as_deref(), node.as_str(), lane.as_str(), v)).boxed(),
+                            Some(h) => {
+                                let queued = crate::agentdef::send_is_queued(mode);
+                                let slot = target * crate::agentdef::SEND_HANDLES + h;
+                                let existing = self.commanders.lock().get(&slot).copied();
+                                match existing {
+                                    Some(c) => {
+                                        if queued {
+                                            record.followed_by(c.send_queued(v)).boxed()
+                                        } else {
+                                            record.followed_by(c.send(v)).boxed()
+                                        }
                                     }
-                                }
-                                None => {
-                                    let commanders = self.commanders.clone();
-                                    record
-                                        .followed_by(context.create_commander(host.as_deref(), node.as_str(), lane.as_str()).and_then(move |c: Commander<$agent>| {
-                                            commanders.lock().insert(target, c);
-                                            if mode == 1 {
-                                                c.send(v)
-                                            } else {
-                                                c.send_queued(v)
-                                            }
-                                        }))
-                                        .boxed()
+                                    None => {
+                                        let commanders = self.commanders.clone();
+                                        let (host, _) = crate::agentdef::host_spelling(&host, h);
+                                        record
+                                            .followed_by(context.create_commander(host.as_deref(), node.as_str(), lane.as_str()).and_then(move |c: Commander<$agent>| {
+                                                commanders.lock().insert(slot, c);
+                                                if queued {
+                                                    c.send_queued(v)
+                                                } else {
+                                                    c.send(v)
+                                                }
+                                            }))
+                                            .boxed()
+                                    }
                                 }
                             }
                         }
@@ -248,17 +287,28 @@ macro_rules! define_lifecycle {
                 let mut hs: Vec<BoxEventHandler<'_, $agent>> = vec![context.effect(move || rec.lock().started = Some(ticket())).boxed()];
                 for target in 0..self.eager.min(self.targets.len() as u32) {
                     let (host, node, lane) = self.targets[target as usize].clone();
-                    let commanders = self.commanders.clone();
-                    hs.push(
-                        context
-                            .create_commander(host.as_deref(), node.as_str(), lane.as_str())
-                            .and_then(move |c: Commander<$agent>| {
-                                context.effect(move || {
-                                    commanders.lock().insert(target, c);
+                    // handle 0 always; for every other eager target also handle 1 (an equivalent spelling
+                    // of the same address), before or after handle 0
+                    let also_alias = (self.eager + target) % 2 == 1;
+                    let handles: Vec<u32> = match (also_alias, self.eager % 3 == 0) {
+                        (false, _) => vec![0],
+                        (true, false) => vec![0, 1],
+                        (true, true) => vec![1, 0],
+                    };
+                    for h in handles {
+                        let commanders = self.commanders.clone();
+                        let (host, _) = crate::agentdef::host_spelling(&host, h);
+                        hs.push(
+                            context
+                                .create_commander(host.as_deref(), node.as_str(), lane.as_str())
+                                .and_then(move |c: Commander<$agent>| {
+                                    context.effect(move || {
+                                        commanders.lock().insert(target * crate::agentdef::SEND_HANDLES + h, c);
+                                    })
                                 })
-                            })
-                            .boxed(),
-                    );
+                                .boxed(),
+                        );
+                    }
                 }
                 Sequentially::new(hs)
             }
